@@ -407,6 +407,22 @@ def t_conn_chain():
     return g.set_start_nodes({r}), dict(sel=[c1, c2, c3], conn=[cc], src=s, tgt=t)
 
 
+def t_conn_excl_cond2():
+    """an exclusion edge between a source tied to one selection choice and a target tied to another one"""
+    B, N, CN, *_ = _imp()
+    g = B()
+    r = N('R')
+    a = [N('A0'), N('A1')]
+    b = [N('B0'), N('B1')]
+    s = [CN('S0', deg_spec='*'), CN('S1', deg_spec='?')]
+    t = [CN('T0', deg_spec='*'), CN('T1', deg_spec='?')]
+    c1 = g.add_selection_choice('C1', r, a)
+    c2 = g.add_selection_choice('C2', r, b)
+    g.add_edges([(r, s[0]), (a[1], s[1]), (r, t[0]), (b[1], t[1])])
+    cc = g.add_connection_choice('K', s, t, exclude=[(s[1], t[1])])
+    return g.set_start_nodes({r}), dict(sel=[c1, c2], conn=[cc], src=s, tgt=t)
+
+
 def t_conn_two():
     B, N, CN, *_ = _imp()
     g = B()
@@ -448,6 +464,7 @@ TEMPLATES = {
     'conn_excl_shift': t_conn_excl_shift, 'conn_two_infeasible': t_conn_two_infeasible,
     'conn_group_no_counterpart': t_conn_group_no_counterpart, 'conn_cond_choice': t_conn_cond_choice,
     'conn_group_tgt': t_conn_group_tgt, 'conn_group3': t_conn_group3, 'conn_chain': t_conn_chain,
+    'conn_excl_cond2': t_conn_excl_cond2,
 }
 CONN_TEMPLATES = [k for k in TEMPLATES if k.startswith('conn_')]
 NO_CONN_TEMPLATES = [k for k in TEMPLATES if not k.startswith('conn_')]
